@@ -17,12 +17,14 @@ from . import poly as P
 from . import sx
 
 USED = {}
+LAST = {}          # name -> argument of the most recent call of that stub (for harnesses)
 _N = [0]
 OPTIONS = {"qr_positive_diag": True, "svd_positive": True, "eigh_spectrum": "real"}
 
 
 def reset():
     USED.clear()
+    LAST.clear()
     _N[0] = 0
 
 
@@ -65,16 +67,17 @@ def _lift_arr(A):
     return out
 
 
-def _add_eq(label, M, real):
+def _add_eq(label, M, real, derived=False):
     """Add every entry of matrix/array M (== 0) as a hypothesis (plus conjugates if complex)."""
+    dest = P.HYP_DERIVED if derived else P.HYP
     for idx in np.ndindex(*M.shape):
         p = P.lift(M[idx])
         if p.t:
-            P.HYP.append((f"{label}{list(idx)}", p))
+            dest.append((f"{label}{list(idx)}", p))
             if not real:
                 pc = p.conjugate()
                 if pc.t != p.t:
-                    P.HYP.append((f"{label}{list(idx)}*", pc))
+                    dest.append((f"{label}{list(idx)}*", pc))
 
 
 def _eye(n):
@@ -119,6 +122,9 @@ def qr_stub(A, mode="reduced"):
     # degree of the certificates the decision procedure has to find
     if m == r:
         _add_eq(f"qr{k}:QQh-I", Q.dot(_dag(Q)) - _eye(m), real)
+    # consequences (implied by the contract): Gram identity and R = Q^dag A
+    _add_eq(f"qr{k}:RhR-AhA", _dag(R).dot(R) - _dag(A).dot(A), real, derived=True)
+    _add_eq(f"qr{k}:QhA-R", _dag(Q).dot(A) - R, real, derived=True)
     return Q, R
 
 
@@ -133,6 +139,7 @@ def svd_stub(A, full_matrices=True, compute_uv=True, hermitian=False, **kw):
     if full_matrices and m != n and compute_uv:
         raise P.Unsupported("svd(full_matrices=True) of a non-square symbolic matrix")
     k = _use("linalg.svd")
+    LAST["svd"] = A
     real = _isreal(A)
     s = np.empty(r, dtype=object)
     for i in range(r):
@@ -145,9 +152,8 @@ def svd_stub(A, full_matrices=True, compute_uv=True, hermitian=False, **kw):
         for i in range(r):
             c.polyvar(P.sid(s[i]))
     if not compute_uv:
-        # singular values only: tie them to A through sum s_i^2 = ||A||_F^2
-        tot = sum((x * x.conjugate() for x in A.reshape(-1)), P.ZERO)
-        P.HYP.append((f"svd{k}:sum-s2", sum((x * x for x in s), P.ZERO) - tot))
+        # singular values only: tied to A through the power sums  sum s^(2j) = Tr (A^dag A)^j
+        _power_sums(A, s, m, n, r, k, P.HYP)
         return s
     U = _fresh(f"U{k}", (m, r), real, constrained=True)
     VH = _fresh(f"V{k}", (r, n), real, constrained=True)
@@ -163,9 +169,24 @@ def svd_stub(A, full_matrices=True, compute_uv=True, hermitian=False, **kw):
     if n == r:
         _add_eq(f"svd{k}:VhV-I", _dag(VH).dot(VH) - _eye(n), real)
     # cheap consequences that lower the certificate degree
-    _add_eq(f"svd{k}:AVh-US", A.dot(_dag(VH)) - U.dot(S), real)
-    _add_eq(f"svd{k}:UhA-SV", _dag(U).dot(A) - S.dot(VH), real)
+    _add_eq(f"svd{k}:AVh-US", A.dot(_dag(VH)) - U.dot(S), real, derived=True)
+    _add_eq(f"svd{k}:UhA-SV", _dag(U).dot(A) - S.dot(VH), real, derived=True)
+    S2 = S.dot(S)
+    _add_eq(f"svd{k}:VS2Vh-AhA", _dag(VH).dot(S2).dot(VH) - _dag(A).dot(A), real, derived=True)
+    _add_eq(f"svd{k}:US2Uh-AAh", U.dot(S2).dot(_dag(U)) - A.dot(_dag(A)), real, derived=True)
+    _power_sums(A, s, m, n, r, k, P.HYP_DERIVED)
     return U, s, VH
+
+
+def _power_sums(A, s, m, n, r, k, dest):
+    """power sums of the singular values are traces of powers of the (smaller) Gram matrix"""
+    G = _dag(A).dot(A) if n <= m else A.dot(_dag(A))
+    Gk = G
+    for kk in range(1, min(r, 3) + 1):
+        tr = sum((Gk[i, i] for i in range(Gk.shape[0])), P.ZERO)
+        dest.append((f"svd{k}:p{kk}", sum((x ** (2 * kk) for x in s), P.ZERO) - tr))
+        if kk < min(r, 3):
+            Gk = Gk.dot(G)
 
 
 # ------------------------------------------------------------------------------ eigh
